@@ -19,7 +19,7 @@ CHECKS = {
    technique="runtime monitoring: reference log-record model over generated stderr/stdout byte streams, race detector on"),
  "C17": dict(
    category="exploration",
-   text="Runtime monitor: for 96 configuration x 6 ambient-environment combinations per launch method, plus user Cmd.Env entries that collide with the control variables or are a copy of the host's whole environment, the environment handed to a custom runner and the environment actually received by a real child (plus its stdin identity) are captured and compared, variable by variable, with what the client configuration determines; rounds with two clients built from one ClientConfig through a RunnerFunc and alive together check that each has a socket directory of its own (announced in its environment, removed by its own Kill only); end-to-end cases launch a real serving plugin from a host that carries PLUGIN_* variables and require the configured mode to work.",
+   text="Runtime monitor: for 96 configuration x 6 ambient-environment combinations per launch method, plus user Cmd.Env entries that collide with the control variables or are a copy of the host's whole environment, the environment handed to a custom runner and the environment actually received by a real child (plus its stdin identity) are captured and compared, variable by variable, with what the client configuration determines; rounds with two clients built from one ClientConfig through a RunnerFunc and alive together check that each has a socket directory of its own (announced in its environment, removed by its own Kill only), and -- started at the same time, with a runner that keeps the environment slice it was handed and launches from it later -- still finds its own variables there; end-to-end cases launch a real serving plugin from a host that carries PLUGIN_* variables and require the configured mode to work.",
    design_ref="DESIGN.md section 3, C17",
    note="Effective environment computed as os/exec does (last duplicate wins); empty value = absent; host child's stdin is a distinctive regular file so that stdin pass-through is observable.",
    technique="runtime monitoring: environment capture at the runner boundary and in a real child, set-comparison oracle"),
@@ -55,13 +55,13 @@ CHECKS = {
    technique="runtime monitoring: id/nonce echo + health re-check oracle over sequential multiplexed establishments, schedule perturbation at hook points"),
  "C09": dict(
    category="exploration",
-   text="Runtime monitor: histories of unmatched / duplicate / late / expiry-aligned broker operations (the expiry alignment is produced deterministically by blocking the expiry goroutine at a hook point) (incl. a second dial to an id whose waiting accept was already served -- also with the first pair's clean-up goroutine held at a hook point while the id is dialled, or accepted and dialled, again --, an id that is announced twice after a dial to it timed out, a close that follows the plugin's server going away while an AcceptAndServe is pending, a late accept whose ack arrives while another dial is waiting, and -- kind muxraw -- an in-process RPCServer whose session peer opens streams and closes them after 0..3 header bytes, with genuine Dispense+dial pairs in between) on MuxBroker, GRPCBroker and multiplexed GRPCBroker, each followed by matched pairs on fresh ids in both directions and a close; oracle: every call returns (nominal 5 s, hang threshold 40 s), unmatched calls fail, fresh pairs succeed, a final close racing with listener announcements lets every call return, no goroutine with broker frames remains after all clients are closed. The defects it found (D5, D6 stale knock, D19 leaked knock listener, D22 used pending entry reused) are repaired; known_findings.json holds only fixed entries.",
+   text="Runtime monitor: histories of unmatched / duplicate / late / expiry-aligned broker operations (the expiry alignment is produced deterministically by blocking the expiry goroutine at a hook point) (incl. a second dial to an id whose waiting accept was already served -- also with the first pair's clean-up goroutine held at a hook point while the id is dialled, or accepted and dialled, again --, an id that is announced twice after a dial to it timed out, a close that follows the plugin's server going away while an AcceptAndServe is pending, a late accept whose ack arrives while another dial is waiting, a burst of 160 dials to ids nobody accepts, and -- kind muxraw -- an in-process RPCServer whose session peer opens streams and closes them after 0..3 header bytes, with genuine Dispense+dial pairs in between) on MuxBroker, GRPCBroker and multiplexed GRPCBroker, each followed by matched pairs on fresh ids in both directions and a close; oracle: every call returns (nominal 5 s, hang threshold 40 s), unmatched calls fail, fresh pairs succeed, a final close racing with listener announcements lets every call return, no goroutine with broker frames remains after all clients are closed. The defects it found (D5, D6 stale knock, D19 leaked knock listener, D22 used pending entry reused) are repaired; known_findings.json holds only fixed entries.",
    design_ref="DESIGN.md section 3, C09 and section 4 (D5, D6)",
    note="Bounded-progress reading of liveness; thresholds are generous so a loaded machine cannot manufacture alarms.",
    technique="runtime monitoring: bounded-progress oracle over fault histories with hook-controlled line-up, goroutine-dump leak monitor"),
  "C13": dict(
    category="exploration",
-   text="Runtime monitor: ~620 (quick) / ~6k (thorough) (file, hash function, checksum) triples incl. every single-bit flip and every proper prefix of the digest (also for files whose digest ends in zero bytes); the target is a script that writes a launch marker as its first action; the oracle computes the digest independently and requires launched <=> checksum == H(file) and the corresponding error; plus histories of 2-4 launches of one path through one shared SecureConfig value with the file atomically replaced in between, and command paths through directory symlinks with '..', file symlinks, relative paths and an argv[0] that names another file (hashed file must be the executed file), and RunnerFunc clients with a SecureConfig (nothing may be launched).",
+   text="Runtime monitor: ~620 (quick) / ~6k (thorough) (file, hash function, checksum) triples incl. every single-bit flip and every proper prefix of the digest (also for files whose digest ends in zero bytes); the target is a script that writes a launch marker as its first action; the oracle computes the digest independently and requires launched <=> checksum == H(file) and the corresponding error; plus histories of 2-4 launches of one path through one shared SecureConfig value with the file atomically replaced in between, and command paths through directory symlinks with '..', file symlinks, relative paths, a bare command name with a same-named file on PATH and an argv[0] that names another file (hashed file must be the executed file), and RunnerFunc clients with a SecureConfig (nothing may be launched).",
    design_ref="DESIGN.md section 3, C13",
    note="Digest computed with Go's crypto packages in the driver; launch observed through the marker file and exec.Cmd.Process.",
    technique="runtime monitoring: launch-marker oracle against an independently computed digest, exhaustive single-bit/prefix sub-spaces"),
@@ -91,7 +91,7 @@ CHECKS = {
    technique="runtime monitoring: prefix-of-regenerated-stream oracle over self-describing frames, race detector on both processes"),
  "C12": dict(
    category="exploration",
-   text="Runtime monitor with hostile peers: for every connection path (main listeners of all three protocols incl. a race for the multiplexed listener's single session, plugin-side and host-side brokered gRPC listeners reached by their sockets and, with and without multiplexing, over the legitimate session through DialWithOptions with replaced transport credentials) intruders with five credential classes speak the real wire protocol and any answered RPC is a violation, while a positive control by the legitimate peer must succeed in the same case; plugins started directly with PLUGIN_CLIENT_CERT in eight unusual shapes are attacked the same way; a plugin with a TLSProvider of its own launched by an AutoMTLS host must either be unusable for that host or refuse the intruders; an impostor certificate at a brokered address must be refused also on gRPC's reconnects; impostor plugins announce one certificate and serve another (or plaintext, or another leaf with the announced certificate appended to its chain) with the real protocol and any completed host RPC is a violation.",
+   text="Runtime monitor with hostile peers: for every connection path (main listeners of all three protocols incl. a race for the multiplexed listener's single session, plugin-side and host-side brokered gRPC listeners reached by their sockets and, with and without multiplexing, over the legitimate session through DialWithOptions with replaced transport credentials) intruders with five credential classes speak the real wire protocol and any answered RPC is a violation, while a positive control by the legitimate peer must succeed in the same case; plugins started directly with PLUGIN_CLIENT_CERT in eight unusual shapes are attacked the same way; a plugin with a TLSProvider of its own launched by an AutoMTLS host must either be unusable for that host or refuse the intruders; an impostor certificate at a brokered address must be refused also on gRPC's reconnects; with one ClientConfig used for two launches, a second plugin that announces a fresh certificate, none, or a three-character field and serves with the first launch's key must be refused; impostor plugins announce one certificate and serve another (or plaintext, or another leaf with the announced certificate appended to its chain) with the real protocol and any completed host RPC is a violation.",
    design_ref="DESIGN.md section 3, C12",
    note="Samples credential classes with fresh keys per case; cases without a successful positive control are inconclusive.",
    technique="runtime monitoring: intruder/impostor probes with positive controls against real AutoMTLS plugin processes"),
